@@ -80,6 +80,15 @@ def gen_scenario(seed, k):
     if k == 0:
         rules = [{"filter": "binary(t_one)", "platform": None, "setup": ["s1", "s2"], "truth": [t["bin"] == "t_one" for t in tests]},
                  {"filter": "all()", "platform": None, "setup": ["s1"], "truth": [True for t in tests]}]
+    if k == 1:
+        # corpus: one script listed by two rules with different filters; a test matched only by the second rule must still get the variables
+        tests[:] = [{"bin": "t_one", "pkg": "alpha", "name": "aa::x", "ignored": False, "selected": True}, {"bin": "t_three", "pkg": "beta", "name": "bb::z", "ignored": False, "selected": True}]
+        sc.tests = []; sc.scripts = []
+        for t in tests: sc.test(t["bin"], t["name"], ["sleep:20", "exit:0"])
+        defs = ["s1"]; scripts = {"s1": {"beh": "ok", "lines": ["VT_K_s1=s1v", "VT_SHARED=from-s1"]}}
+        sc.scripts.append(("s1", ["env:" + hx(l) for l in scripts["s1"]["lines"]] + ["exit:0"]))
+        rules = [{"filter": "binary(t_one)", "platform": None, "setup": ["s1"], "truth": [True, False]}, {"filter": "package(beta)", "platform": None, "setup": ["s1"], "truth": [False, True]}]
+        cli_filter = None
     cfg = 'experimental = ["setup-scripts"]\n'
     for s in defs: cfg += f'[script.{s}]\ncommand = ["@VSCRIPT@", "{s}"]\n'
     cfg += '[profile.default]\nfail-fast = false\nstatus-level = "all"\nfinal-status-level = "all"\ntest-threads = 4\n'
